@@ -23,3 +23,50 @@ package sourcerunner
 //@   property C16
 //@   nosafety
 //@   atcall createCheckpoint: arg0 == barrier.CheckpointId
+
+// ---- delivery (C04). A keyed event goes to exactly one operator - the one whose key group
+// range holds the key - unchanged; broadcasts go to every operator; every record read puts one
+// placeholder on the output stream and one entry into the key-by fetcher, and a placeholder is
+// resolved by taking exactly one result from the fetcher and routing its keyed events in order.
+//@ func operatorCluster.routeEvent
+//@   property C04
+//@   requires c.keySpace != nil && partitioning.ghostValidKeySpace(c.keySpace) && len(c.keySpace.keyGroupRanges) == len(c.operators)
+//@   requires forall(0, len(c.operators), func(i int) bool { return c.operators[i] != nil })
+//@   atcall HandleEvent: recv_ == c.operators[c.keySpace.RangeIndex(key)] && arg0 == event
+//@   ensures called(HandleEvent)
+
+//@ func operatorCluster.broadcastEvent
+//@   property C04
+//@   nosafety
+//@   atcall HandleEvent: recv_ == op && arg0 == request
+
+//@ func batchingOperator.HandleEvent
+//@   property C04
+//@   nosafety
+//@   atcall Add: same(recv_, o.batcher) && arg0 == event
+//@   ensures called(Add)
+
+//@ func batchingOperator.Flush
+//@   property C04
+//@   nosafety
+//@   atcall Flush: same(recv_, o.batcher) && arg0 == batching.CurrentBatch
+
+// The sender goroutine of an operator: a timed-out batch is taken under its own token (a stale
+// token takes nothing), a full batch is the one handed over; both go to this operator.
+//@ func newBatchingOperator$0
+//@   property C04
+//@   nosafety
+//@   atcall Flush: same(recv_, o.batcher) && arg0 == batchToken
+//@   atcall HandleEventBatch: same(recv_, o.op)
+
+//@ func SourceRunner.sendKeyEvent
+//@   property C04
+//@   nosafety
+//@   atcall Add: same(recv_, r.keyEventChannel) && same(arg1, event)
+//@   ensures called(Add)
+
+//@ func SourceRunner.sendOperatorEvent
+//@   property C04
+//@   nosafety
+//@   atcall routeEvent: same(arg0, event.Key) && arg1 != nil
+//@   atcall AdvanceTime: true
